@@ -81,12 +81,13 @@ func (jenny Builder) genBuilder(context languages.Context, builder ast.Builder) 
 }
 
 func (jenny Builder) getBuilderSignature(pkg string, obj ast.Object) string {
+	// the class is declared under the formatted name of the object
 	if pkg != obj.SelfRef.ReferredPkg {
-		jenny.imports.Add(obj.SelfRef.ReferredType, obj.SelfRef.ReferredPkg)
+		jenny.imports.Add(formatObjectName(obj.SelfRef.ReferredType), obj.SelfRef.ReferredPkg)
 	}
 
 	if !obj.Type.IsDataqueryVariant() {
-		return obj.Name
+		return formatObjectName(obj.Name)
 	}
 
 	return fmt.Sprintf("%s.%s", jenny.config.formatPackage("cog.variants"), tools.UpperCamelCase(obj.Type.ImplementedVariant()))
